@@ -263,7 +263,10 @@ Definition process_section (o : options) (st : dstate) (should : bool) (p : patc
   let should_backup := save_backup o ||
       (negb (r_perfect ar) && negb (r_skipped ar) && match backup_if_mismatch o with OBYes => true | _ => false end) in
   let first_hunk_leaves_nothing :=
-    match hunks p3 with h :: _ => Z.eqb (rstart (newr h)) 0 && Z.eqb (rcount (newr h)) 0 | [] => false end in
+    match poper p3 with
+    | OpChange => match hunks p3 with h :: _ => Z.eqb (rstart (newr h)) 0 && Z.eqb (rcount (newr h)) 0 | [] => false end
+    | _ => false
+    end in
   let is_delete := negb (r_skipped ar) && match remove_empty_files o with
                    | OBYes => match poper p3 with OpDelete => true | _ => first_hunk_leaves_nothing end
                    | _ => false
